@@ -148,6 +148,7 @@ func init() {
 			{"alloc-scans-all", "the relationship id allocator's scanning loop has no early exit", ruleAllocScansAll},
 			{"counter-numeric", "the restored image counter is a numeric maximum, not a lexicographic one", ruleCounterNumeric},
 			{"counter-monotonic", "the image counter only ever increases after Open", ruleCounterMonotonic("Document")},
+			{"size-precedence", "explicit width+height is decided before the aspect-ratio flag is consulted (dominance)", ruleSizePrecedence},
 			{"clone-alias", "a rendered document does not share relationship, content-type or part tables with its template", ruleCloneAliasFor("Relationships", "ContentTypes", "Document")},
 		},
 		Assumptions: commonAssumptions,
